@@ -2515,3 +2515,44 @@ package sdf
 //@   ensures [ordered] !isnil(r) ==> ord3(r.BoundingBox())
 //@   ensures [encloses-every-copy] !isnil(r) && d < 0 ==> r.BoundingBox().Contains(p)
 //@ end
+
+//@ func Polygon.arcVertex
+//@   property C17
+//@   id arc-geometry
+//@   requires 0 <= i && i < len(p.vlist) && len(p.vlist) >= 2
+//@   requires p.vlist[i].vtype == pvArc ==> p.vlist[i].facets >= 1
+//@   requires forall k int :: 0 <= k && k < len(p.vlist) && k != i ==> p.vlist[k].vertex != p.vlist[i].vertex
+//@   invariant 0 rangeindex >= -1 && rangeindex < len(vlist)
+//@   let ch = b.Sub(a)
+//@   let lc = ch.Length()
+//@   let hm = mid.Sub(a)
+//@   focus requires path-int
+//@   assert [chord-has-length] r ==> ch.Length2() > 0
+//@   assert [chord-length] r ==> lc > 0 && sq(lc) == ch.Length2()
+//@   focus chord-length
+//@   assert [unit-chord-direction] r ==> ba.Length2() == 1
+//@   assert [normal-turned-to-the-chosen-side] r ==> n == v2.Vec{ba.Y, -ba.X}.MulScalar(side) && (side == 1 || side == -1 || side == 0)
+//@   assert [half-chord] r ==> hm == ch.MulScalar(0.5) && sq(dMid) == hm.Length2() && dMid >= 0
+//@   assert [half-chord-along-the-chord] r ==> hm == ba.MulScalar(0.5*lc)
+//@   assert [start-relative-to-the-centre] r ==> a.Sub(c) == hm.MulScalar(-1).Sub(c.Sub(mid))
+//@   assert [end-relative-to-the-centre] r ==> b.Sub(c) == hm.Sub(c.Sub(mid))
+//@   assert [centre-offset-from-the-midpoint] r && sq(radius) >= sq(dMid) ==> dCenter >= 0 && sq(dCenter) == sq(radius) - sq(dMid)
+//@   assert [centre] r ==> c.Sub(mid) == n.MulScalar(dCenter)
+//@   generalize ba
+//@   generalize lc
+//@   generalize hm
+//@   generalize dCenter
+//@   generalize dMid
+//@   focus unit-chord-direction normal-turned-to-the-chosen-side half-chord-along-the-chord
+//@   assert [unit-normal-to-the-chord] r ==> n.Length2() == sq(side) && n.Dot(ba) == 0
+//@   assert [side-of-the-chord] r ==> n.Dot(v2.Vec{ba.Y, -ba.X}) == side
+//@   assert [half-chord-perpendicular-to-the-normal] r ==> hm.Dot(n) == 0.5*lc*n.Dot(ba)
+//@   focus unit-normal-to-the-chord half-chord-perpendicular-to-the-normal centre half-chord
+//@   assert [half-chord-perpendicular-to-the-offset] r ==> hm.Dot(c.Sub(mid)) == 0
+//@   assert [offset-length] r ==> c.Sub(mid).Length2() == sq(side)*sq(dCenter)
+//@   assert [half-chord-length] r ==> hm.Length2() == sq(dMid)
+//@   focus start-relative-to-the-centre end-relative-to-the-centre half-chord-perpendicular-to-the-offset offset-length half-chord-length centre-offset-from-the-midpoint side-of-the-chord centre normal-turned-to-the-chosen-side
+//@   ensures [the-centre-is-one-radius-from-the-previous-vertex] r && side != 0 && sq(radius) >= sq(dMid) ==> a.Sub(c).Length2() == sq(radius)
+//@   ensures [and-from-the-arc-end] r && side != 0 && sq(radius) >= sq(dMid) ==> b.Sub(c).Length2() == sq(radius)
+//@   ensures [on-the-side-of-the-chord-chosen-by-the-sign-of-the-radius] r ==> c.Sub(mid).Dot(v2.Vec{ba.Y, -ba.X}) == side*dCenter
+//@ end
